@@ -168,8 +168,9 @@ theorem commit_heights {L : LayoutOps} {t t' : Transcript} {pi : PublicInput}
       · simp only [Outcome.ok.injEq, Prod.mk.injEq] at hfc
         obtain ⟨_, hfri⟩ := hfc
         rw [← hfri]
-        have hv : (cfg.fri.nLayers - (@OfNat.ofNat Felt 1 Fin.instOfNat)).val = cfg.fri.nLayers.val - 1 :=
-          NoPanic.sub_one_model_val _ (by omega)
+        have hv : (cfg.fri.nLayers - (@OfNat.ofNat Felt 1 Fin.instOfNat)).val = cfg.fri.nLayers.val - 1 := by
+          have h1 : (@OfNat.ofNat Felt 1 Fin.instOfNat).val = 1 := rfl
+          rw [Fin.sub_val_of_le (by rw [Fin.le_def, h1]; omega), h1]
         have hcl : ∀ (n : ℕ) (t : Transcript) (cfgs : List TableConfig) (roots : List Felt)
             (t3 : Transcript) (cs : List Table.Commitment) (es : List Felt),
             commitRounds H n t cfgs roots = .ok (t3, cs, es) → cs.length = n := by
@@ -217,6 +218,57 @@ theorem commit_heights {L : LayoutOps} {t t' : Transcript} {pi : PublicInput}
 /-- the bound: at most 48 queries, evaluation domain of at most `2^87` points -/
 def walkDepthBound : ℕ := 1 + 48 * 87
 
+/-- what the pipeline's checks give: heights, and the shape of the query list -/
+theorem pipeline_side (L : LayoutOps) (pi : PublicInput) (cfg : StarkConfig)
+    (sec nc1 nc2 : Felt) (hcfg : cfg.validate sec nc1 nc2 = .ok ())
+    (d : StarkDomains) (hd : StarkDomains.new cfg.logTraceDomainSize cfg.logNCosets = .ok d)
+    (t t' tq : Transcript) (u : Stark.UnsentCommitment) (c : Stark.Commitment)
+    (hc : Stark.commit L H t pi u cfg d = .ok (t', c))
+    (queries : List Felt)
+    (hq : Queries.generateQueries H t' cfg.nQueries d.evalDomainSize = .ok (queries, tq)) :
+    c.tracesOriginal.vector.config.height.val ≤ 87 ∧ c.tracesInteraction.vector.config.height.val ≤ 87 ∧
+    c.composition.vector.config.height.val ≤ 87 ∧
+    (∀ ci ∈ c.fri.innerLayers, ci.vector.config.height.val ≤ 87) ∧
+    queries.length ≤ 48 ∧ queries.Pairwise (fun a b => a.val < b.val) ∧
+    (∀ x ∈ queries, x.val < 2 ^ d.logEvalDomainSize.val) ∧ d.logEvalDomainSize.val ≤ 87 := by
+  obtain ⟨⟨_, _, _⟩, htrace, hnq, _⟩ := ConfigLemmas.accepted_facts cfg sec nc1 nc2 hcfg
+  obtain ⟨_, hcos, _⟩ := Pipeline.config_ok hcfg
+  have h87 : cfg.logTraceDomainSize.val + cfg.logNCosets.val ≤ 87 := by
+    have := hcos.2; omega
+  obtain ⟨hsz, _, hlog, _⟩ := Proofs.sizes_eq _ _ (by omega) d hd
+  have hb0 : d.evalDomainSize ≠ 0 := by
+    intro h0
+    have : d.evalDomainSize.val = 0 := by rw [h0]; rfl
+    have : 0 < 2 ^ (cfg.logTraceDomainSize.val + cfg.logNCosets.val) := Nat.pow_pos (by omega)
+    omega
+  obtain ⟨e1, e2, e3, e4⟩ := commit_heights hcfg hc
+  refine ⟨by omega, by omega, by omega, fun ci hci => Nat.le_trans (e4 ci hci) h87,
+    Nat.le_trans (Proofs.queries_length_le hq hb0) hnq, Proofs.queries_strict hq hb0, ?_, by omega⟩
+  intro x hx
+  rw [hlog, ← hsz]
+  exact Proofs.queries_in_range hq hb0 x hx
+
+/-- the three trace / composition decommitments of `stark_verify`, for ANY values and authentication
+    nodes: at most `1 + 48 * 87` recursive calls each -/
+theorem verifyPhase_tables_le (L : LayoutOps) (pi : PublicInput) (cfg : StarkConfig)
+    (sec nc1 nc2 : Felt) (hcfg : cfg.validate sec nc1 nc2 = .ok ())
+    (d : StarkDomains) (hd : StarkDomains.new cfg.logTraceDomainSize cfg.logNCosets = .ok d)
+    (t t' tq : Transcript) (u : Stark.UnsentCommitment) (c : Stark.Commitment)
+    (hc : Stark.commit L H t pi u cfg d = .ok (t', c))
+    (queries : List Felt)
+    (hq : Queries.generateQueries H t' cfg.nQueries d.evalDomainSize = .ok (queries, tq))
+    (values auths : List Felt) :
+    tableDecommitCalls H c.tracesOriginal queries values auths ≤ walkDepthBound ∧
+    tableDecommitCalls H c.tracesInteraction queries values auths ≤ walkDepthBound ∧
+    tableDecommitCalls H c.composition queries values auths ≤ walkDepthBound := by
+  obtain ⟨h1, h2, h3, _, hlen, _, hrange, hle⟩ :=
+    pipeline_side L pi cfg sec nc1 nc2 hcfg d hd t t' tq u c hc queries hq
+  have hr87 : ∀ x ∈ queries, x.val < 2 ^ 87 := fun x hx =>
+    Nat.lt_of_lt_of_le (hrange x hx) (Nat.pow_le_pow_right (by omega) hle)
+  exact ⟨tableDecommit_calls_le_const _ queries values auths 48 87 (by omega) h1 hlen hr87,
+    tableDecommit_calls_le_const _ queries values auths 48 87 (by omega) h2 hlen hr87,
+    tableDecommit_calls_le_const _ queries values auths 48 87 (by omega) h3 hlen hr87⟩
+
 /-- **C18, recursion depth.**  Accepted configuration, domains as built by `StarkDomains::new`, the
     commitment returned by `stark_commit`, queries drawn by `generate_queries` on the evaluation
     domain (exactly the data flow of `Stark.verify`): every Merkle walk that `stark_verify` starts —
@@ -231,58 +283,34 @@ theorem verifyPhaseCalls_le (L : LayoutOps) (n1 n2 : ℕ) (pi : PublicInput) (cf
     (hq : Queries.generateQueries H t' cfg.nQueries d.evalDomainSize = .ok (queries, tq))
     (w : Stark.Witness) :
     ∀ k ∈ verifyPhaseCalls L H n1 n2 pi queries c w d, k ≤ walkDepthBound := by
-  obtain ⟨⟨_, _, _⟩, htrace, hnq, _⟩ := ConfigLemmas.accepted_facts cfg sec nc1 nc2 hcfg
-  obtain ⟨_, hcos, _⟩ := Pipeline.config_ok hcfg
-  have h87 : cfg.logTraceDomainSize.val + cfg.logNCosets.val ≤ 87 := by
-    have := hcos.2; omega
-  obtain ⟨hsz, _, hlog, _⟩ := Proofs.sizes_eq _ _ (by omega) d hd
-  have hb0 : d.evalDomainSize ≠ 0 := by
-    intro h0
-    have : d.evalDomainSize.val = 0 := by rw [h0]; rfl
-    have : 0 < 2 ^ (cfg.logTraceDomainSize.val + cfg.logNCosets.val) := Nat.pow_pos (by omega)
-    omega
-  have hrange : ∀ x ∈ queries, x.val < 2 ^ (cfg.logTraceDomainSize.val + cfg.logNCosets.val) := by
-    intro x hx; rw [← hsz]; exact Proofs.queries_in_range hq hb0 x hx
-  have hsorted := Proofs.queries_strict hq hb0
-  have hlen : queries.length ≤ 48 := Nat.le_trans (Proofs.queries_length_le hq hb0) hnq
-  obtain ⟨e1, e2, e3, e4⟩ := commit_heights hcfg hc
-  have hr87 : ∀ x ∈ queries, x.val < 2 ^ 87 := fun x hx =>
-    Nat.lt_of_lt_of_le (hrange x hx) (Nat.pow_le_pow_right (by omega) h87)
-  have k1 : ∀ (values auths : List Felt),
-      tableDecommitCalls H c.tracesOriginal queries values auths ≤ walkDepthBound := fun values auths =>
-    tableDecommit_calls_le_const _ queries values auths 48 87 (by omega) (by omega) hlen hr87
-  have k2 : ∀ (values auths : List Felt),
-      tableDecommitCalls H c.tracesInteraction queries values auths ≤ walkDepthBound := fun values auths =>
-    tableDecommit_calls_le_const _ queries values auths 48 87 (by omega) (by omega) hlen hr87
-  have k3 : ∀ (values auths : List Felt),
-      tableDecommitCalls H c.composition queries values auths ≤ walkDepthBound := fun values auths =>
-    tableDecommit_calls_le_const _ queries values auths 48 87 (by omega) (by omega) hlen hr87
-  intro k hk
-  unfold verifyPhaseCalls at hk
-  simp only [] at hk
-  split at hk
-  · simp only [List.mem_cons] at hk
-    rcases hk with rfl | rfl | rfl | hk
-    · exact k1 _ _
-    · exact k2 _ _
-    · exact k3 _ _
-    · split at hk
-      · split at hk
-        · simp at hk
+  obtain ⟨_, _, _, e4, hlen, hsorted, hrange, _⟩ :=
+    pipeline_side L pi cfg sec nc1 nc2 hcfg d hd t t' tq u c hc queries hq
+  have hk := verifyPhase_tables_le L pi cfg sec nc1 nc2 hcfg d hd t t' tq u c hc queries hq
+  intro k hk'
+  unfold verifyPhaseCalls at hk'
+  simp only [] at hk'
+  split at hk'
+  · simp only [List.mem_cons] at hk'
+    rcases hk' with rfl | rfl | rfl | hk'
+    · exact (hk _ _).1
+    · exact (hk _ _).2.1
+    · exact (hk _ _).2.2
+    · split at hk'
+      · split at hk'
+        · simp at hk'
         · next hle =>
-          split at hk
-          · split at hk
+          split at hk'
+          · split at hk'
             · refine friVerifyCalls_le 48 87 (by omega) (by omega) queries c.fri _ _ _ hsorted ?_ hlen
-                (fun ci hci => Nat.le_trans (e4 ci hci) h87) k hk
+                e4 k hk'
               intro x hx
-              exact Nat.lt_of_lt_of_le (hrange x hx)
-                (Nat.pow_le_pow_right (by omega) (by rw [← hlog]; omega))
-            · simp at hk
-          · simp at hk
-      · simp at hk
-  · simp only [List.mem_cons, List.not_mem_nil, or_false] at hk
-    rcases hk with rfl | rfl
-    · exact k1 _ _
-    · exact k2 _ _
+              exact Nat.lt_of_lt_of_le (hrange x hx) (Nat.pow_le_pow_right (by omega) (by omega))
+            · simp at hk'
+          · simp at hk'
+      · simp at hk'
+  · simp only [List.mem_cons, List.not_mem_nil, or_false] at hk'
+    rcases hk' with rfl | rfl
+    · exact (hk _ _).1
+    · exact (hk _ _).2.1
 
 end Swiftness.Proofs.MerkleDepth
